@@ -289,7 +289,10 @@ def result_obs(fn):
         r = fn()
     except Exception as e:  # noqa: BLE001
         return ("raise", type(e).__name__)
-    extra = {k: (round(float(v), 9) if isinstance(v, (int, float, np.floating)) else repr(v))
+    def num(v):
+        v = float(v)
+        return "nan" if v != v else round(v, 9)       # NaN (0/0 error rate of an all-rejecting selection) equals itself here
+    extra = {k: (num(v) if isinstance(v, (int, float, np.floating)) else repr(v))
              for k, v in vars(r).items() if not k.startswith("_")}
     return ("ok", tuple(tuple(o.s) for o in r.outputs), np.round(r.array, 9).tobytes(),
             tuple(sorted(extra.items())))
